@@ -752,6 +752,10 @@ func (bucket *TypedBucket) IncrementLinkCount(fieldType FieldType, value []byte)
 		key := string(PrependFieldType(fieldType, value))
 		next := int32(1)
 		if current := bucket.GetInt32(key); current != nil {
+			if *current == math.MaxInt32 {
+				// one more would wrap around to a negative count
+				return 0, errors.Errorf("link count %v can't be incremented", *current)
+			}
 			next = *current + 1
 		}
 		bucket.SetInt32(key, next, nil)
